@@ -54,6 +54,16 @@ CHECKS = [
              "known findings C11-edge / C11-edge-drop apply to the formula",
      "not_covered": ["round trip of models from arbitrary fits (bounded sample only)"],
      },
+    {"id": "C20", "level": "proof", "modules": ["contracts.C20_windows"], "bounded": [],
+     "technique": "deductive verification over a sorted-index model of pandas label slicing (pyvc symbolic execution, z3 with quantified sortedness)",
+     "text": "get_baseline_data / get_reporting_data are executed symbolically for every row count, every sorted integer-time index, every "
+             "end/start instant, max_days and all option combinations: returned rows lie inside the requested limits (tight at both ends), the "
+             "result is a fresh contiguous slice with only its last row blanked, the input is not written, the overshoot start is a nearest row, "
+             "only the dedicated empty-selection error escapes, the gap warnings are emitted iff the data stops short.",
+     "note": "assumed pandas contracts: inclusive label slicing of a sorted index, index.max/min/get_indexer(nearest), NaT comparisons False, "
+             "Copy-on-Write; timestamps as integers (absolute time); dropna().empty as a monotone predicate of the window",
+     "not_covered": ["unsorted input (pandas raises)", "values inside the slice beyond 'only the last row is blanked' (frame ghost state)"],
+     },
 ]
 _NOT_BUILT = "machinery for this property is not built yet (see DESIGN.md §7 build order); not claimed"
 NOT_APPLICABLE = [{"property_id": f"C{n:02d}", "reason": _NOT_BUILT} for n in range(1, 21) if n != 15 and f"C{n:02d}" not in {c["id"] for c in CHECKS}] + [
